@@ -308,6 +308,27 @@ func (p *vfSrvPeer) SendFinished(corrupt bool) error {
 	return p.send(fin)
 }
 
+// SendFinishedPacked sends the Finished message and, in the same record, one more handshake message.
+func (p *vfSrvPeer) SendFinishedPacked(typ uint8, body []byte) error {
+	hs := p.hs
+	fin := &finishedMsg{verifyData: hs.finishedHash.serverSum(hs.masterSecret)}
+	return vfSendPacked(p.c, fin, vfRawMsg(p.c, typ, body))
+}
+
+func vfSendPacked(c *Conn, a, b handshakeMessage) error {
+	vfPeerSeq(c, a)
+	d1, err := a.marshal()
+	if err != nil {
+		return err
+	}
+	vfPeerSeq(c, b)
+	d2, err := b.marshal()
+	if err != nil {
+		return err
+	}
+	return vfPeerRawRecord(c, recordTypeHandshake, append(append([]byte(nil), d1...), d2...))
+}
+
 // SendAppData sends application data under whatever protection is currently active.
 func (p *vfSrvPeer) SendAppData(b []byte) error { return vfPeerRawRecord(p.c, recordTypeApplicationData, b) }
 
@@ -515,6 +536,16 @@ func (p *vfCliPeer) SendFinished(corrupt bool) error {
 		fin.verifyData[3] ^= 1
 	}
 	return p.send(fin)
+}
+
+// SendFinishedPacked sends the Finished message and, in the same record, one more handshake message.
+func (p *vfCliPeer) SendFinishedPacked(typ uint8, body []byte) error {
+	hs := p.hs
+	if hs.masterSecret == nil {
+		p.ComputeMaster()
+	}
+	fin := &finishedMsg{verifyData: hs.finishedHash.clientSum(hs.masterSecret)}
+	return vfSendPacked(p.c, fin, vfRawMsg(p.c, typ, body))
 }
 
 // ReadServerFinished reads ChangeCipherSpec + Finished from the server and verifies it.
